@@ -130,3 +130,13 @@ func VerifC19TickerResetPanics(s *Session, d time.Duration) (p bool) {
 	s.tick.Reset(d)
 	return false
 }
+
+// VerifC19SetSwap stores a Profile in s.swap exactly as the MvProfile handler does (mux.go:
+// `s.swap = p`): the next pass of the listen loop performs the swap.  Call it from the listen
+// goroutine (inside Connect) only.
+func VerifC19SetSwap(s *Session, p cfg.Profile) { s.swap = p }
+
+// VerifC19Settings reads the timing values the Session runs with.
+func VerifC19Settings(s *Session) (sleep time.Duration, jitter uint8, kill time.Time, work *cfg.WorkHours) {
+	return s.sleep, s.jitter, s.kill, s.work
+}
